@@ -50,6 +50,7 @@ fn sweep_spec(orig_sel: u8) -> ProgSpec {
         recursion: 0,
         data: vec![0x1111; 8],
         strings: vec!["ab".into(), "c".into(), "".into()],
+        raw_words: None,
     }
 }
 
@@ -249,7 +250,7 @@ impl Prop for C13 {
         if ctx.tier == Tier::Thorough {
             rep.exhaustive.push("absolute addresses: all 65,536 x {move, break add, break remove, goto} x 3 spellings x 2 origins".into());
         }
-        let n = ctx.share(ctx.tier.pick(8_000, 100_000));
+        let n = ctx.share(ctx.tier.pick(20_000, 200_000));
         drive(ctx, rep, "histories", cases(), n, &mut |c: &Case| judge_case(c));
     }
     fn replay(&self, _ctx: &Ctx, case: &Value) -> Obs {
